@@ -7,6 +7,7 @@ import RbpfModel.Model.RtSpec
 import RbpfModel.Model.AsmSpec
 import RbpfModel.Lemmas.TextLemmas
 namespace Rbpf
+open TextL
 
 /-- never a panic on whole instructions with supported opcodes, wide loads followed by their second
     half, call kinds 0/1 (including offset -32768 and extreme immediates: no side condition on the
